@@ -1685,9 +1685,10 @@ func runC09(c *Ctx) {
 		"C09.d Key.Matches: every compared mask is derived through &^ of both lock constants on both sides, the raw masks are not used afterwards, and every return that can yield true is dominated by an equality of a binding-side and an event-side mask that still carries Ctrl/Alt/Super/Hyper/Meta",
 		"C09.e decodeKey interpreted on Print/C0/ESC/SS3/CSI reports (reference table x modifier parameters x event types, kitty key/shifted/base/modifier/event/text fields, all 256 masks) equals the reference decoder",
 		"C09.f round trip by interpretation: a decoded chord matches its own String() through MatchString (each modifier, all 64 combinations, every printable ASCII key, a sample of other scripts, every named special key)",
+		"C09.h Shift is forgiven only in the documented ways: for every named or decodable special key (incl. Tab, Enter, Escape, BackSpace) and every letter, a binding and an event whose modifiers differ exactly in Shift never match (Matches interpreted, with and without Ctrl/Alt present, both directions); the documented forgiving cases (':' vs Shift+';', Ctrl+'1' / Ctrl+'!' vs Ctrl+Shift+1, Shift+'a' / 'A' vs legacy 'A') still match",
 		"C09.g a chord both encodings express (letters, Shift/Ctrl/Alt+letter, Alt+Shift+letter, Enter/Tab/Esc/BackSpace/space, Shift+Tab, cursor and F1-F4 keys) yields one String() and the same bindings under the legacy and the kitty encoding",
 	}
-	c.NotDec = []string{"exact extent of Shift forgiveness over all chords and layouts", "text payloads beyond the sampled code points", "chords the legacy encoding cannot express unambiguously (shifted punctuation, Ctrl+digit, Ctrl+h/i/m/[)", "paste event typing (set in handleSequence)"}
+	c.NotDec = []string{"Shift forgiveness for graphic non-letter keys beyond the documented cases (layout dependent)", "text payloads beyond the sampled code points", "chords the legacy encoding cannot express unambiguously (shifted punctuation, Ctrl+digit, Ctrl+h/i/m/[)", "paste event typing (set in handleSequence)"}
 	c.expect("C09.a", 138) // 128 reference CSI entries + 10 SS3 finals
 	c.expect("C09.b", 18)  // 6 literals x (separator, parsed) + 8 modifier constants
 	c.expect("C09.c", 480) // 125 names x (unique, shape) + 126 keys + reference keys named + same table
@@ -1695,6 +1696,7 @@ func runC09(c *Ctx) {
 	c.expect("C09.e", 183)
 	c.expect("C09.f", 260)
 	c.expect("C09.g", 13)
+	c.expect("C09.h", 188) // 155 named/decodable special keys + 26 letters (no forgiveness) + 7 documented forgiving cases
 
 	pk := c.P.Pkg("vaxis")
 	if pk == nil {
@@ -1749,6 +1751,7 @@ func runC09(c *Ctx) {
 	e.ruleD()
 	e.ruleB()
 	e.ruleEFG()
+	e.ruleH()
 	if os.Getenv("C09_DUMP") != "" {
 		for _, o := range c.Obs {
 			fmt.Printf("OBL %s %s | %s\n", o.Status, o.Key, o.Reason)
@@ -3286,4 +3289,114 @@ func (e *c09env) ruleEFG() {
 	}
 	fk = append(fk, pair{csi('~', []int{11}), c09Seq{kind: "csi", r: 'P'}, e.named["KeyF01"], 0}, pair{csi('~', []int{13}), c09Seq{kind: "ss3", r: 'R'}, e.named["KeyF03"], 0})
 	gcheck("cursor keys, Home/End, F1-F4 (SS3 / CSI ~ / CSI letter)", fk)
+}
+
+// ---- C09.h  Shift is forgiven only in the documented ways
+//
+// Documented (doc comment of Matches): Shift may be ignored only when the bound key is a graphic
+// non-letter (':' is Shift+';'), or through ShiftedCode / Text with Shift removed. Hence for a key
+// that is a letter or not graphic at all (every special key above unicode.MaxRune, Tab, Enter,
+// Escape, BackSpace) a binding and an event that differ exactly in Shift must never match.
+
+func (e *c09env) ruleH() {
+	c := e.c
+	pos := e.fMatch.Decl.Pos()
+	forgivable := func(v int64) bool { // reference: the class the documentation exempts
+		return v >= 0 && v <= unicode.MaxRune && unicode.IsGraphic(rune(v)) && !unicode.IsLetter(rune(v))
+	}
+	others := []int64{0, c09Ctrl, c09Alt, c09Ctrl | c09Alt, c09Super}
+	// neg: events (as decoded) of the chord with and without Shift; bindings with the opposite Shift state
+	neg := func(key string, bindKey int64, plain, shifted func(other int64) (c09Key, string)) {
+		var problems, errs []string
+		n := 0
+		for _, o := range others {
+			evP, er1 := plain(o)
+			evS, er2 := shifted(o)
+			if er1+er2 != "" {
+				errs = append(errs, er1+er2)
+				continue
+			}
+			for _, t := range []struct {
+				ev   c09Key
+				mods int64
+				what string
+			}{{evS, o, "a binding without Shift matches the event with Shift"}, {evP, o | c09Shift, "a binding with Shift matches the event without Shift"}} {
+				n++
+				got, er := e.matches(t.ev, bindKey, t.mods)
+				if er != "" {
+					errs = append(errs, er)
+				} else if got {
+					problems = append(problems, fmt.Sprintf("%s: Matches(%s, mods %d) is true on the event %s; Shift is not documented to be forgiven for this key", t.what, e.keyLabel(bindKey), t.mods, t.ev))
+				}
+			}
+		}
+		e.report("C09.h", key, pos, n, problems, errs, "bindings and events that differ exactly in Shift never match")
+	}
+	specials := map[int64]bool{}
+	for _, v := range e.table {
+		specials[v] = true
+	}
+	for _, n := range e.names {
+		specials[n.key] = true
+	}
+	var sv []int64
+	for v := range specials {
+		sv = append(sv, v)
+	}
+	sort.Slice(sv, func(i, j int) bool { return sv[i] < sv[j] })
+	for _, v := range sv {
+		v := v
+		key := "shift/not forgiven for " + e.keyLabel(v)
+		if forgivable(v) {
+			c.okTrivial("C09.h", key, pos, "graphic non-letter: the documented forgiveness applies")
+			continue
+		}
+		mk := func(shift int64) func(int64) (c09Key, string) {
+			return func(o int64) (c09Key, string) { return c09Key{Keycode: v, Mods: o | shift}, "" }
+		}
+		neg(key, v, mk(0), mk(c09Shift))
+	}
+	csi := func(final rune, params ...[]int) c09Seq { return c09Seq{kind: "csi", r: final, params: params} }
+	for r := 'a'; r <= 'z'; r++ {
+		r := r
+		R := unicode.ToUpper(r)
+		plain := func(o int64) (c09Key, string) {
+			if o == 0 {
+				return e.decode(c09Seq{kind: "print", text: string(r)})
+			}
+			return e.decode(csi('u', []int{int(r)}, []int{int(o) + 1}))
+		}
+		shifted := func(o int64) (c09Key, string) {
+			if o == 0 {
+				return e.decode(c09Seq{kind: "print", text: string(R)})
+			}
+			return e.decode(csi('u', []int{int(r), int(R)}, []int{int(o|c09Shift) + 1}))
+		}
+		neg(fmt.Sprintf("shift/not forgiven for letter %q", r), int64(r), plain, shifted)
+	}
+	// documented forgiving cases must keep matching
+	pcase := func(name string, s c09Seq, bindKey, mods int64) {
+		ev, er := e.decode(s)
+		if er != "" {
+			e.report("C09.h", "shift/documented: "+name, pos, 1, nil, []string{er}, "")
+			return
+		}
+		got, er := e.matches(ev, bindKey, mods)
+		var problems, errs []string
+		if er != "" {
+			errs = append(errs, er)
+		} else if !got {
+			problems = append(problems, fmt.Sprintf("Matches(%s, mods %d) is false on %s (%s): a documented way of binding a shifted key stopped working", e.keyLabel(bindKey), mods, s, ev))
+		}
+		e.report("C09.h", "shift/documented: "+name, pos, 1, problems, errs, "matches")
+	}
+	colon := csi('u', []int{59, 58}, []int{2}, []int{58})
+	bang := csi('u', []int{49, 33}, []int{6})
+	pcase("':' matches Shift+';' without naming Shift", colon, ':', 0)
+	pcase("Shift+':' matches Shift+';'", colon, ':', c09Shift)
+	pcase("Shift+';' matches Shift+';'", colon, ';', c09Shift)
+	pcase("Ctrl+'1' matches Ctrl+Shift+'1' (graphic non-letter key)", bang, '1', c09Ctrl)
+	pcase("Ctrl+'!' matches Ctrl+Shift+'1' (shifted code)", bang, '!', c09Ctrl)
+	pcase("Shift+'a' matches the legacy report 'A'", c09Seq{kind: "print", text: "A"}, 'a', c09Shift)
+	pcase("'A' matches the legacy report 'A'", c09Seq{kind: "print", text: "A"}, 'A', 0)
 }
